@@ -100,7 +100,19 @@ func init() {
 			tzClause = " tz('" + m.tz + "')"
 			o["tz"] = m.tz
 		}
-		if p := guard(func() { stmt, err = influxql.ParseStatement("SELECT v FROM m WHERE " + text + tzClause) }); p != "" {
+		// variants of the statement around the same condition: no WHERE clause at all (for the condition `true`: the
+		// statement selects everything either way), and a time column renamed by `time AS ts` + RewriteTimeFields()
+		head, where := "SELECT v FROM m", " WHERE "+text
+		if nw, _ := c["nowhere"].(bool); nw {
+			where = ""
+			o["nowhere"] = true
+		}
+		talias, _ := c["talias"].(bool)
+		if talias {
+			head = "SELECT time AS ts, v FROM m"
+			o["talias"] = true
+		}
+		if p := guard(func() { stmt, err = influxql.ParseStatement(head + where + tzClause) }); p != "" {
 			o["panic"] = p
 			return o
 		}
@@ -112,6 +124,12 @@ func init() {
 		if !ok {
 			o["perr"] = "not a SELECT statement"
 			return o
+		}
+		if talias {
+			if p := guard(func() { sel.RewriteTimeFields() }); p != "" {
+				o["panic"] = "RewriteTimeFields: " + p
+				return o
+			}
 		}
 		o["size0"] = c18Size(sel.Condition)
 		steps := make([]interface{}, 0, 4)
